@@ -3,8 +3,8 @@
 //!
 //! Exhaustive enumeration (no sampling) of
 //!   * RRsets: per record type a small value list; every sequence of length
-//!     1..=3 over it (so every permutation and every duplicate pattern), four
-//!     owner shapes (apex, a.z, *.z, *.a.z) x owner case forms, TTL menu,
+//!     1..=3 over it (so every permutation and every duplicate pattern), seven
+//!     owner shapes (apex, a.z, *.z, *.a.z, sub.*.z, *.*.z, *.sub.*.z) x owner case forms, TTL menu,
 //!     inception/expiration menu (incl. wrap across 2^32, reversed, the
 //!     undefined 2^31 distance), signer-name case, class, every algorithm the
 //!     ring backend can sign with (fixed key files of /repo/test-data),
@@ -1027,7 +1027,10 @@ fn time_menu(quick: bool) -> Vec<(u32, u32, Period)> {
     v
 }
 
-const OWNERS: [&str; 4] = ["z", "a.z", "*.z", "*.a.z"];
+/// Owner shapes. The last three carry an asterisk label that is NOT the
+/// leftmost one (RFC 4592 2.1.3: such a label is an ordinary label): RFC 4034
+/// 3.1.3 leaves only a LEFTMOST `*` out of the RRSIG Labels count.
+const OWNERS: [&str; 7] = ["z", "a.z", "*.z", "*.a.z", "sub.*.z", "*.*.z", "*.sub.*.z"];
 
 /// owner case forms: 0 = lower, 1 = upper, 2 = alternating per record
 fn owner_of(oi: usize, oc: usize, idx: usize) -> Vec<Vec<u8>> {
